@@ -547,12 +547,27 @@ type argSym struct {
 func ArgVectors(v ssa.Value) (out [][]argSym, ok bool) {
 	const bound = 128
 	ok = true
-	var eval func(v ssa.Value, seen map[ssa.Value]bool) [][]argSym
+	memo := map[ssa.Value][][]argSym{}
+	var eval, eval1 func(v ssa.Value, seen map[ssa.Value]bool) [][]argSym
+	// a chain of conditional appends is a chain of φ-nodes over one another: without the memo every φ would
+	// evaluate its predecessor chain twice (exponential in the number of conditions)
 	eval = func(v ssa.Value, seen map[ssa.Value]bool) [][]argSym {
+		if r, done := memo[v]; done {
+			return r
+		}
 		if seen[v] {
 			ok = false
 			return nil
 		}
+		r := eval1(v, seen)
+		if len(r) > bound {
+			ok = false
+			r = r[:bound]
+		}
+		memo[v] = r
+		return r
+	}
+	eval1 = func(v ssa.Value, seen map[ssa.Value]bool) [][]argSym {
 		seen[v] = true
 		defer delete(seen, v)
 		switch x := v.(type) {
